@@ -544,13 +544,13 @@ def true_angular(x, y):
     elif result <= 0.0:
         return FLOAT32_MAX
     else:
-        result = result / np.sqrt(norm_x * norm_y)
+        result = min(result / np.sqrt(norm_x * norm_y), 1.0)
         return 1.0 - (np.arccos(result) / np.pi)
 
 
 @numba.vectorize(fastmath=True)
 def true_angular_from_alt_cosine(d):
-    return 1.0 - (np.arccos(pow(2.0, -d)) / np.pi)
+    return 1.0 - (np.arccos(min(pow(2.0, -d), 1.0)) / np.pi)
 
 
 @numba.njit(fastmath=True)
